@@ -131,7 +131,7 @@ def run_doc_case(a):
         docp = os.path.join(root, "src-tauri", "tauri.conf.json")
         open(docp, "w").write(text)
         before = exact_load(text)
-        settings = {"project_path": rnd.choice(["./src-tauri", os.path.join(root, "src-tauri"), "src-tauri"]), "output_path": rnd.choice(["./gen", "../web/src/api", os.path.join(root, "o u t")]),
+        settings = {"project_path": rnd.choice(["./src-tauri", os.path.join(root, "src-tauri"), "src-tauri"]), "output_path": rnd.choice(["./gen", "../web/src/api", os.path.join(root, "o u t"), "gen\\ts", "g\u00e9n/\u65e5\u672c", "it's \"quoted\"/out", "a//b/./c/", "tab\there"]),
                     "validation_library": rnd.choice(["none", "zod"]), "verbose": rnd.choice([None, True, False]), "visualize_deps": rnd.choice([None, True, False]),
                     "include_private": rnd.choice([None, True, False]), "force": rnd.choice([None, True, False]),
                     "type_mappings": rnd.choice([None, {}, {"PathBuf": "string"}, {"DateTime<Utc>": "string", "Uuid": "string", "é": "number"}]),
